@@ -141,13 +141,14 @@ TMemReq ==
   /\ reqs' = reqs \cup {Ev.id}
   /\ UNCHANGED <<vars, curId, ref, pendEnd, pendDone>>
 
+\* a response for an instruction that already had its last response: the instruction would finish twice
 TMemRsp ==
   /\ Is("MemRsp")
   /\ IF Ev.q = "v"
-     THEN /\ HasId(vq, Ev.id)
-          /\ IF Ev.last = 1 THEN MemReturnV(IdxOf(vq, Ev.id)) ELSE UNCHANGED vars
-     ELSE /\ HasId(sq, Ev.id)
-          /\ IF Ev.last = 1 THEN MemReturnS(IdxOf(sq, Ev.id)) ELSE UNCHANGED vars
+     THEN IF ~HasId(vq, Ev.id) THEN Flag("MemInstCompletesOnce") /\ Frozen
+          ELSE IF Ev.last = 1 THEN MemReturnV(IdxOf(vq, Ev.id)) ELSE UNCHANGED vars
+     ELSE IF ~HasId(sq, Ev.id) THEN Flag("MemInstCompletesOnce") /\ Frozen
+          ELSE IF Ev.last = 1 THEN MemReturnS(IdxOf(sq, Ev.id)) ELSE UNCHANGED vars
   /\ UNCHANGED <<curId, ref, reqs, pendEnd, pendDone>>
 
 Ending(w) == w \in internal /\ cur[w].k = "end"
@@ -259,7 +260,7 @@ NoHangInv              == "NoHang" \notin bad
 ValuesInv              == "ValuesEqualReference" \notin bad
 PathInv                == "PathEqualsReference" \notin bad
 IssueInOrderInv        == "IssueInOrder" \notin bad
-MemInstEndInv          == "MemInstEndsAfterLastResponse" \notin bad
+MemInstEndInv          == "MemInstEndsAfterLastResponse" \notin bad /\ "MemInstCompletesOnce" \notin bad
 NoGroups == <<>>
 
 Mark == HWNote(l)                 \* CONSTRAINT: records progress
